@@ -48,7 +48,7 @@ func runC19(c *runCtx) error {
 		// principals sharing keys are left to the verifier-level model (C05 correspondence): the order in which
 		// State.allPrincipals lists principals is a map order and matters once keys are shared
 		shared := false
-		w := &wWorld{Commits: []wCommit{{1, 1, nil}, {2, 2, []int{1}}}}
+		w := &wWorld{Commits: []wCommit{{ID: 1, Tree: 1, Parents: nil}, {ID: 2, Tree: 2, Parents: []int{1}}}}
 		w.Events = append(w.Events, wEvent{Kind: "policy", Pol: c19Policy(r, 1, 1, []int{101}, nil, false), Signer: 1})
 		w.Events = append(w.Events, wEvent{Kind: "ref", Ref: refMain, Commit: 2, Signer: 4})
 		w.Events = append(w.Events, wEvent{Kind: "policy", Pol: c19Policy(r, 2, thr, pids, globals, shared), Signer: 1})
@@ -64,8 +64,8 @@ func runC19(c *runCtx) error {
 		w.Events = append(w.Events, wEvent{Kind: "ref", Ref: refFeat, Commit: featTip, Signer: 4 + r.Intn(4)})
 		mergeTree := featTip // fast-forward: the feature tip's tree
 		// approvals for exactly this merge (or, sometimes, for something else)
-		if r.Intn(5) != 0 {
-			ns := r.Intn(4)
+		if r.Intn(8) != 0 {
+			ns := 1 + r.Intn(4)
 			signers := []int{}
 			for _, i := range r.Perm(5)[:ns] {
 				signers = append(signers, []int{4, 5, 6, 7, 1}[i])
